@@ -129,8 +129,14 @@ Fixpoint pgs_loop (items : list item) (left : nat) (cur : list Z) (ae : bool) : 
       end
   end.
 
+(* a string item of a list is normalised like a field of the ';'-separated form (as repaired, F36): blanks stripped, empty = 0 *)
+Definition prep_item (it : item) : item :=
+  match it with
+  | IInt z => IInt z
+  | IStr s => let s' := strip_ws s in IStr (if is_nil s' then [CH_0] else s')
+  end.
 Definition pgs_items (items : list item) (ae : bool) : res (list str) :=
-  match items with [] => OK [[CH_0]] | _ => pgs_loop (map norm_item_pgs items) 0 [] ae end.
+  match items with [] => OK [[CH_0]] | _ => pgs_loop (map norm_item_pgs (map prep_item items)) 0 [] ae end.
 Definition items_of_str (w : str) : list item :=
   map (fun s => let s' := strip_ws s in IStr (if is_nil s' then [CH_0] else s')) (split_char SEMI w).
 Definition pgs_str (w : str) (ae : bool) : res (list str) :=
